@@ -6,6 +6,7 @@ import (
 	"encoding/binary"
 	"errors"
 	"fmt"
+	mmap "github.com/blevesearch/mmap-go"
 	"hash/crc32"
 	"io"
 	"os"
@@ -51,6 +52,7 @@ func newSlots() *slots {
 }
 
 type Exec struct {
+	kept      map[string][]string
 	dir       string
 	chunkMode uint32
 	batches   map[string]*BatchSpec
@@ -66,7 +68,8 @@ type Exec struct {
 
 func newExec(dir string) *Exec {
 	return &Exec{dir: dir, chunkMode: 1026, batches: map[string]*BatchSpec{}, segs: map[string]*segEntry{},
-		files: map[string]string{}, bufs: map[string][]byte{}, sl: newSlots(), stats: map[string]int{}}
+		files: map[string]string{}, bufs: map[string][]byte{}, sl: newSlots(), stats: map[string]int{},
+		kept: map[string][]string{}}
 }
 
 func (e *Exec) stat(k string) {
@@ -407,6 +410,16 @@ func (e *Exec) exec(c *Cmd, sl *slots, gsuffix string) (string, bool) {
 	case "rmfile":
 		os.Remove(e.path(c.Pos[0]))
 		return "", false
+	case "showkept":
+		// field names obtained earlier (possibly from a segment that has been closed since)
+		e.mu.Lock()
+		names := e.kept[c.Pos[0]]
+		e.mu.Unlock()
+		cp := make([]string, len(names))
+		for i, n := range names {
+			cp[i] = string(append([]byte(nil), n...)) // reading the bytes is the point
+		}
+		return strList(cp), true
 	case "q":
 		return e.doQuery(c, sl), true
 	case "enc":
@@ -646,10 +659,18 @@ func (e *Exec) doMerge(c *Cmd, gsuffix string) string {
 		mode = uint32(n)
 	}
 	ch := make(chan struct{})
-	rep := &countReporter{ch: ch}
 	cl := c.str("close", "never")
+	if strings.HasPrefix(cl, "beforebuf:") {
+		// a buffered channel closed with values still pending in it is closed all the same
+		nb, _ := strconv.Atoi(strings.TrimPrefix(cl, "beforebuf:"))
+		ch = make(chan struct{}, nb)
+		for k := 0; k < nb; k++ {
+			ch <- struct{}{}
+		}
+	}
+	rep := &countReporter{ch: ch}
 	switch {
-	case cl == "before":
+	case cl == "before" || strings.HasPrefix(cl, "beforebuf:"):
 		close(ch)
 		rep.closed = true
 	case strings.HasPrefix(cl, "report:"):
@@ -750,6 +771,17 @@ func (e *Exec) doRef(c *Cmd) string {
 		return errKind(s.seg.DecRef())
 	case "close":
 		return errKind(s.seg.Close())
+	case "sabotage":
+		// the mapping is taken away behind the segment's back (what any holder of Data() can do):
+		// the final release then meets a failing munmap
+		if !isSeg {
+			return "inmem"
+		}
+		mm := mmap.MMap(zs.Data())
+		if err := mm.Unmap(); err != nil {
+			return "err:unmap"
+		}
+		return "ok"
 	case "refs":
 		if !isSeg {
 			return "refs=na"
@@ -867,7 +899,27 @@ func (e *Exec) doQuery(c *Cmd, sl *slots) string {
 		if err != nil {
 			return errKind(err)
 		}
-		return bmList(bm)
+		out := bmList(bm)
+		if c.str("mut", "0") == "1" {
+			// the answer is the caller's: bleve adopts it as a deletion set and adds to it
+			bm.Add(4000000 + uint32(len(ss)))
+		}
+		return out
+	case "thesaddr":
+		zs, ok := sg.(*zap.Segment)
+		if !ok {
+			return "inmem"
+		}
+		if _, err := zs.ThesaurusAddr(c.Pos[2]); err != nil {
+			return "err"
+		}
+		return "ok"
+	case "keepfields":
+		// the field names are kept as the segment handed them out (no copy) and shown later
+		e.mu.Lock()
+		e.kept[c.Pos[2]] = sg.Fields()
+		e.mu.Unlock()
+		return "ok"
 	case "dictpair":
 		return e.qDictPair(c, sg)
 	case "header":
@@ -920,9 +972,15 @@ func (e *Exec) qPost(c *Cmd, sg segment.Segment, sl *slots) string {
 	if plSlot != "-" {
 		prePL = sl.pls[plSlot]
 	}
-	pl, err := dict.PostingsList(term, ex, prePL)
-	if err != nil {
-		return errKind(err)
+	var pl segment.PostingsList
+	if c.str("relist", "0") == "1" && prePL != nil {
+		// the list object obtained earlier is used again as it is (no new lookup)
+		pl = prePL
+	} else {
+		pl, err = dict.PostingsList(term, ex, prePL)
+		if err != nil {
+			return errKind(err)
+		}
 	}
 	if plSlot != "-" {
 		sl.pls[plSlot] = pl
@@ -1501,11 +1559,17 @@ func (e *Exec) expand(c *Cmd, out *bufio.Writer) {
 		} else {
 			emit(base + " close=before")
 			emit(base + " close=before keep=1") // an older output is at the path
+			emit(base + " close=beforebuf:1")   // closed with values still pending in its buffer
+			emit(base + " close=beforebuf:100000")
 			step := 1
 			for reports/step > c.num("max", 400) {
 				step++
 			}
-			for k := 1; k <= reports; k += step {
+			tailFull := c.num("tailfull", 0) // every report of the tail, where the sections are written
+			for k := 1; k <= reports; k++ {
+				if (k-1)%step != 0 && k <= reports-tailFull {
+					continue
+				}
 				if k%2 == 0 {
 					emit(fmt.Sprintf("%s close=report:%d keep=1", base, k)) // an older output is at the path
 				} else {
